@@ -190,6 +190,50 @@ def dtype_oracle(run, n_per_class):
 
 
 # ---------------------------------------------------------------- B. float64 accuracy against extended precision
+def tight_uniform_field(c07, spec, E0, parts, mp):
+    """float64 Bmad-X bend body (no fringes) vs C07's independent 40-digit computation of the motion in a uniform field, at round-off
+    tolerance relative to the natural scale of each coordinate: positions and tau to 4e-15 (|value| + L), the momenta and delta (all
+    normalised to the reference momentum) to 4e-15 (|value| + 1): the code evaluates them from O(L) / O(1) intermediate quantities, so
+    that is what float64 round-off means here; a float32 constant or a cancelling formula is off by 1e-12 and more."""
+    import copy
+    q = copy.deepcopy(spec)
+    q["kw"].update({"fringe_at": "neither", "tilt": 0.0})
+    out = c07.make(q).track(c07.beam(parts, E0)).particles.tolist()
+    m, L, th = mp.mpf(c07.m_eV()), mp.mpf(q["kw"]["length"]), mp.mpf(q["kw"]["angle"])
+    g = th / L
+    E0d = mp.mpf(E0)
+    p0 = mp.sqrt(E0d * E0d - m * m)
+    for i, p in enumerate(parts):
+        x, px, y, py, tau, d = [mp.mpf(v) for v in p[:6]]
+        en = E0d + d * p0
+        pc = mp.sqrt(en * en - m * m)
+        P = pc / p0
+        beta, beta0 = pc / en, p0 / E0d
+        n = mp.sqrt(P * P - py * py)
+        r = n / g
+        s1 = px / n
+        c1 = mp.sqrt(1 - s1 * s1)
+        R1 = 1 / g + x
+        C = (R1 - r * c1, r * s1)
+        e = (mp.cos(th), mp.sin(th))
+        eC = e[0] * C[0] + e[1] * C[1]
+        D = eC * eC - (C[0] ** 2 + C[1] ** 2) + r * r
+        R2 = eC + mp.sign(g) * mp.sqrt(D)
+        N = ((R2 * e[0] - C[0]) / r, (R2 * e[1] - C[1]) / r)
+        d2 = (-N[1], N[0])
+        d1 = (s1, c1)
+        turn = mp.atan2(d1[0] * d2[1] - d1[1] * d2[0], d1[0] * d2[0] + d1[1] * d2[1])
+        arc = r * turn
+        z2 = -beta * tau + beta * L / beta0 - P * arc / n
+        exp = [R2 - 1 / g, n * (d2[0] * e[0] + d2[1] * e[1]), y + py * arc / n, py, -z2 / beta, d]
+        for j in range(6):
+            tol = 4e-15 * (abs(float(exp[j])) + (float(L) if j in (0, 2, 4) else 1.0))
+            if not abs(out[i][j] - float(exp[j])) <= tol:
+                return {"what": "Bmad-X bend body in float64 vs 40-digit reference (exact motion in a uniform field)", "particle": p, "coordinate": j,
+                        "observed": out[i][j], "expected": float(exp[j]), "tol": tol}
+    return None
+
+
 def accuracy_oracle(run):
     """float64 runs vs 40-digit references (mpmath); float32 runs vs float64 runs."""
     import cheetah
@@ -282,6 +326,95 @@ def accuracy_oracle(run):
             if err > 1e-11:
                 bad.append({"kind": "accuracy", "what": "Cavity.track delta in float64 vs 40-digit reference", "rel_err": err, "params": [L, V, ph, f, E],
                             "particle": p, "got": got, "expected": float(ref)})
+    # (4c) linearly spaced beams: the coordinates of a float64 beam are equally spaced to float64 round-off (the weights i/(n-1)
+    #      must not be float32), for the helper and for the constructors that use it, scalar and vectorised
+    from fractions import Fraction
+    from cheetah.utils import elementwise_linspace
+    for n in (11, 7, 4):
+        a, b = torch.tensor([-1.2345678901234e-3, 0.3], dtype=tdt), torch.tensor([2.3456789012345e-3, 0.7000000000001], dtype=tdt)
+        got = elementwise_linspace(a, b, n)
+        run.add_case(["accuracy", "elementwise_linspace", n], True)
+        for v in range(2):
+            fa, fb = Fraction(float(a[v])), Fraction(float(b[v]))
+            for i in range(n):
+                exp = float(fa + (fb - fa) * Fraction(i, n - 1))
+                err = abs(float(got[v, i]) - exp) / max(abs(float(fa)), abs(float(fb)))
+                if err > 1e-15:
+                    bad.append({"kind": "accuracy", "what": "elementwise_linspace in float64 vs exact rational reference", "n": n, "index": i,
+                                "got": float(got[v, i]), "expected": exp, "rel_err": err})
+                    break
+        if got.dtype != tdt:
+            bad.append({"kind": "accuracy", "what": "elementwise_linspace returns dtype " + str(got.dtype)})
+        mk = cheetah.ParticleBeam.make_linspaced(num_particles=n, mu_x=torch.tensor([1e-3, -2e-3], dtype=tdt), sigma_x=torch.tensor([1.7e-4, 3.1e-4], dtype=tdt),
+                                                 sigma_px=torch.tensor(2.3e-5, dtype=tdt), energy=torch.tensor(1e8, dtype=tdt), dtype=tdt)
+        lin = [("ParticleBeam.make_linspaced", mk)]
+        try:
+            qb = cheetah.ParameterBeam.from_parameters(mu_x=torch.tensor(1e-3, dtype=tdt), sigma_x=torch.tensor(1.7e-4, dtype=tdt),
+                                                       sigma_px=torch.tensor(2.3e-5, dtype=tdt), energy=torch.tensor(1e8, dtype=tdt), dtype=tdt)
+            lin.append(("ParameterBeam.linspaced", qb.linspaced(n)))
+            lin.append(("ParticleBeam.linspaced", mk.linspaced(n)))
+        except Exception:
+            run.count("linspaced_exception")
+        run.add_case(["accuracy", "linspaced_beams", n], True)
+        for name, lb in lin:
+            P = lb.particles.reshape(-1, lb.particles.shape[-2], 7)
+            for row in P:
+                for c in range(6):
+                    col = [Fraction(float(v)) for v in row[:, c]]
+                    scale = max(abs(col[0]), abs(col[-1]))
+                    if scale == 0:
+                        continue
+                    dev = max(abs(col[i] - (col[0] + (col[-1] - col[0]) * Fraction(i, n - 1))) for i in range(n)) / scale
+                    if dev > 4e-15:
+                        bad.append({"kind": "accuracy", "what": name + " in float64: coordinates are not equally spaced to float64 round-off",
+                                    "n": n, "coordinate": c, "rel_dev": float(dev)})
+                        break
+    # (4d) Bmad-X tracking in float64 vs 40-digit references, and float32 vs float64: drift (closed form) and the body of weak / strong
+    #      bends (exact motion in a uniform field; C07's independent circle-intersection computation, here at round-off tolerance)
+    import importlib
+    c07 = importlib.import_module("props.c07")
+    for L, E, d in [(0.789, 4.5e7, -0.03), (1.5, 6e6, 0.02), (0.2, 1e9, 0.0)]:
+        ps = [[6e-4, 1.6e-3, -1.1e-3, -5.7e-4, -2.8e-4, d, 1.0], [0.0, 0.0, 0.0, 0.0, 0.0, 0.0, 1.0], [-1e-3, 2e-4, 5e-4, 1e-3, 1e-3, -d / 2, 1.0]]
+        out = cheetah.Drift(torch.tensor(L, dtype=tdt), tracking_method="bmadx", dtype=tdt).track(
+            cheetah.ParticleBeam(torch.tensor(ps, dtype=tdt), torch.tensor(E, dtype=tdt), dtype=tdt)).particles
+        run.add_case(["accuracy", "bmadx_drift", L, E], True)
+        m = mp.mpf(c07.m_eV())
+        p0 = mp.sqrt(mp.mpf(E) ** 2 - m * m)
+        for i, p in enumerate(ps):
+            x, px, y, py, tau, dl = [mp.mpf(v) for v in p[:6]]
+            en = mp.mpf(E) + dl * p0
+            pc = mp.sqrt(en * en - m * m)
+            P = pc / p0
+            pl = mp.sqrt(P * P - px * px - py * py)
+            beta, beta0 = pc / en, p0 / mp.mpf(E)
+            exp = [x + mp.mpf(L) * px / pl, px, y + mp.mpf(L) * py / pl, py, None, dl]
+            z2 = -beta * tau + mp.mpf(L) * (beta / beta0 - P / pl)
+            exp[4] = -z2 / beta
+            for j in range(6):
+                tol = 4e-15 * (abs(float(exp[j])) + (L if j in (0, 2, 4) else 1.0))
+                if not abs(float(out[i, j]) - float(exp[j])) <= tol:
+                    bad.append({"kind": "accuracy", "what": "Bmad-X Drift in float64 vs 40-digit reference", "coordinate": j, "particle": p,
+                                "got": float(out[i, j]), "expected": float(exp[j]), "params": [L, E]})
+    for ang in (2e-5, -1e-3, 0.05, -0.19, 1.9):
+        spec = {"cls": "Dipole", "kw": {"length": 0.7, "angle": ang}}
+        ps = [[1e-4, 2e-5, -1e-4, 1e-5, 1e-4, 1e-3, 1.0], [0.0, 0.0, 0.0, 0.0, 0.0, 0.0, 1.0], [-2e-4, -3e-5, 5e-5, 2e-5, -2e-4, -2e-3, 1.0]]
+        run.add_case(["accuracy", "bmadx_bend_body", ang], True)
+        try:
+            f = tight_uniform_field(c07, spec, 1e8, ps, mp)
+        except Exception as ex:  # noqa
+            f = {"what": "exception " + repr(ex)[:200]}
+        if f:
+            bad.append(dict(f, kind="accuracy", angle=ang))
+        q64 = cheetah.Dipole(torch.tensor(0.7, dtype=tdt), angle=torch.tensor(ang, dtype=tdt), tracking_method="bmadx", dtype=tdt)
+        q32 = cheetah.Dipole(torch.tensor(0.7), angle=torch.tensor(ang), tracking_method="bmadx", dtype=torch.float32)
+        o64 = q64.track(cheetah.ParticleBeam(torch.tensor(ps, dtype=tdt), torch.tensor(1e8, dtype=tdt), dtype=tdt)).particles
+        o32 = q32.track(cheetah.ParticleBeam(torch.tensor(ps), torch.tensor(1e8), dtype=torch.float32)).particles
+        dd = (o32.double() - o64).abs()
+        lim = 2e-6 * (o64.abs() + torch.tensor([0.7, 1.0, 0.7, 1.0, 0.7, 1.0, 1.0], dtype=tdt))      # float32 round-off on the same natural scales
+        if bool((dd > lim).any()):
+            k = int((dd / lim).argmax())
+            bad.append({"kind": "accuracy", "what": "Bmad-X Dipole float32 tracking vs float64 tracking", "angle": ang, "particle": k // 7, "coordinate": k % 7,
+                        "float32": float(o32.reshape(-1)[k]), "float64": float(o64.reshape(-1)[k])})
     # (5) tracking through a small lattice: float32 vs float64
     for _ in range(10):
         lat = realgen.gen_lattice(run.rng, n_max=4, depth=0, method="cheetah",
